@@ -121,7 +121,12 @@ CLAIMED["C04"]["text"] += CODE2 % ("body.rs BodyWriter::write, consume_direct_wr
                                    "c04_code_write_equiv, c04_code_sized_write (min of three, verbatim, appended, counted down, ended exactly at zero, the assert! cannot fire), c04_code_direct_equiv")
 CLAIMED["C03"]["text"] += CODE2 % ("body.rs BodyWriter::write with its while loop, write_chunk, finish",
                                    "c03_code_write_equiv, c03_code_write_ok, c03_code_write_chunk, c03_code_finish")
-for _p in ("C03", "C04", "C06", "C07", "C08", "C12"):
+CLAIMED["C09"]["text"] += (" The successor decisions of the code itself are part of the development: tools/rs2coq2.py regenerates, on every run, decision skeletons of the five proceed functions of "
+                           "src/client/flow.rs that branch (gen_next_*: the Rust conditions over can_proceed / should_send_body / await_100_continue / need_response_body / is_close_delimited / is_redirect, "
+                           "the XxxResult variant of each path, the close reasons added on the way), and proofs/Gen2_equiv_flow.v proves that whenever the model's proceed succeeds its successor and added close "
+                           "reasons are the ones the translated decision yields from the model's flags (c09_code_send_request .. c09_code_recv_body, tables c09_code_*_table proved by evaluating the generated "
+                           "functions on all flag combinations); a skeleton outside the translated subset falls back to the pinned one and is reported.")
+for _p in ("C03", "C04", "C06", "C07", "C08", "C09", "C12"):
     CLAIMED[_p]["technique"] += " + the code's own functions translated to Gallina on every run and proved equivalent to the model"
 
 NOT_YET = {}
